@@ -25,13 +25,18 @@ import shutil
 import threading
 from fractions import Fraction
 
-from harness import core, forkpool, functional, graph, replay, tlc
+from harness import core, forkpool, functional, graph, tlc
+from harness import replay as replay_mod
 from harness.simkernel import World, import_psutil
 
-# Repairs of /repo found by this check.  The specification is the statement, so
-# nothing in it depends on them; the probe run (Algo = "psutil700") keeps showing
-# that TLC's SharesSum law rejects the algorithm of the unrepaired 7.0.0.
-FIXES = {"C07scale"}    # fix: commit 6374891, cpu_times_percent scale (see known_findings.json "fixed")
+# Repairs of /repo the specification depends on: none.  The specification is the
+# statement; the one defect of the tree (cpu_times_percent's scale for totals
+# below one CPU second) is reported by the signatures
+#   conf:cpu_times_percent:subsecond-total / trace:cpu_times_percent:subsecond-total
+# (signed in known_findings.json: its one-line repair contradicts an unedited
+# test).  The probe run (Algo = "psutil700") shows that TLC's SharesSum law
+# rejects that algorithm at model level too.
+FIXES = set()
 
 FIELDS = ["user", "nice", "system", "idle", "iowait", "irq", "softirq", "steal", "guest", "guest_nice"]
 PID = 77
@@ -521,9 +526,10 @@ def record(ctx, pools, name, jobs, kind, tags):
     ctx.cov["replayed_transitions"] += steps
     ctx.cov["traces_validated_against_impl"] += len(jobs)
     ctx.cov.setdefault("replay", {})[name] = {"behaviours": len(jobs), "steps": steps, "disagreements": nbad}
-    if jobs:
+    if jobs and name in ("dump-pairs", "dump-threads", "simulate-3threads", "replay-file"):
         j = jobs[len(jobs) // 2]
-        ctx.sample({"kind": kind, "key": j["key"], "scale": j.get("S", 1), "events": j["events"][:6]})
+        ctx.sample({"kind": kind + " " + name, "import_time_cfg(ncpu,fields,CLK_TCK)": j["key"], "scale": j.get("S", 1),
+                    "events": [{k: v for k, v in e.items() if k not in ("a", "b")} for e in j["events"][:4]]})
 
 
 # ---------------------------------------------------------------------------
@@ -602,7 +608,7 @@ def tour_of(ctx, name, r, per_class):
     g = graph.from_dump(r)
     rnd = random.Random("%s/%d" % (name, ctx.seed))
     jobs = []
-    for init, events in replay.tour_jobs(ctx, g, per_class=per_class, edge_class=edge_class, maxlen=40):
+    for init, events in replay_mod.tour_jobs(ctx, g, per_class=per_class, edge_class=edge_class, maxlen=40):
         key = tuple(g.states[init][0:3])
         S = 1 if not jobs or rnd.random() < 0.5 else rnd.choice(SCALES[1:])
         jobs.append({"key": list(key), "S": S, "events": events})
@@ -614,8 +620,11 @@ def tour_of(ctx, name, r, per_class):
 
 
 def per_class_of(tier, name, n):
-    """quick: complete tours of the small dumps; of the large ones every class
-    of transition (in dump-pairs every delta vector is a class of its own)"""
+    """thorough: complete tours; quick: complete tours of the small dumps, of
+    the large ones every class of transition (in dump-pairs every delta vector
+    is a class of its own)"""
+    if name == "dump-process":          # 58k transitions of a two-object arithmetic: classes only
+        return 10 if tier == "thorough" else 3
     if tier == "thorough" or n <= 5000:
         return None
     return 1 if name == "dump-pairs" else 3
@@ -660,11 +669,11 @@ def replay_sim(ctx, pools, name, fut, tags, rnd):
 
 
 def model_violation(ctx, pools, r, name):
+    """The published values ARE the statement: a structural law that fails on
+    them is a defect of the specification, not of psutil."""
     evs = tlc.trace_events(r.trace)
-    ctx.disagree("model:%s" % r.violated,
-                 "TLC (%s): %s does not hold for what the specification demands -- the specification "
-                 "contradicts itself\n%s" % (name, r.violated, "\n".join("%s %s" % x for x in evs)),
-                 {"trace": evs, "property": r.violated})
+    raise core.Machinery("TLC (%s): %s does not hold for the values the specification itself demands\n%s"
+                         % (name, r.violated, "\n".join("%s %s" % x for x in evs)))
 
 
 # ---------------------------------------------------------------------------
@@ -908,16 +917,26 @@ REQUIRED_TAGS = [
 ]
 
 
-def replay_one(ctx, pools, path):
-    rep = json.load(open(path))["replay"]
+def replay(ctx, data):
+    """./check C07 --replay f : re-run one stored case (a conformance behaviour
+    or a seeded run of the random driver); True if it still disagrees."""
+    rep = data["replay"]
     tags = set()
-    if "trace" in rep:
-        trace_validate(ctx, pools, 1, rep["trace"]["n"], tags, only=[rep["trace"]])
-    elif "events" in rep and "key" in rep:
-        record(ctx, pools, "replay-file", [rep], "stored", tags)
-    else:
-        raise core.Machinery("nothing to replay in %s" % path)
-    print("replayed %s: %d disagreement(s), %d known" % (path, len(ctx.violations), sum(ctx.known_hits.values())))
+    pools = Pools({tuple(rep["trace"]["key"] if "trace" in rep else rep["key"]): 1})
+    try:
+        if "trace" in rep:
+            trace_validate(ctx, pools, 1, rep["trace"]["n"], tags, only=[rep["trace"]])
+        elif "events" in rep and "key" in rep:
+            record(ctx, pools, "replay-file", [rep], "stored", tags)
+        else:
+            raise core.Machinery("nothing to replay")
+    finally:
+        pools.close()
+    for sig, desc, _ in ctx.violations:
+        print("  still disagrees [%s]: %s" % (sig, desc[:600]))
+    for sig, n in ctx.known_hits.items():
+        print("  still disagrees (signed finding) [%s] x%d" % (sig, n))
+    return bool(ctx.violations or ctx.known_hits)
 
 
 def check(ctx):
@@ -939,7 +958,8 @@ def _check(ctx, pools):
         "open by the statement: only range, one-decimal rounding and 'shares add up to 100 or are all zero' are checked, "
         "no kernel event is placed inside such a call; the importing thread's first call is measured against the "
         "import-time sample, as documented",
-        "when no non-guest time elapsed (total 0) the guest shares of cpu_times_percent are left open; "
+        "when no non-guest time elapsed (total 0) while a guest column advanced (user went backwards and was clipped) "
+        "100*busy/total is undefined: cpu_percent and the guest shares of cpu_times_percent are left open there (range only); "
         "Process.cpu_percent with zero wall time elapsed since the previous call is left open (any value >= 0)",
         "values are compared with the exact rational q as |x - q| <= 0.05 + 1e-9 and 10x integral (never stricter than "
         "round-to-one-decimal); cpu_times() values with ticks/CLK_TCK up to 4 ulp",
@@ -949,8 +969,6 @@ def _check(ctx, pools):
         "differences are exact in binary floating point",
         "a blocking form is replayed as: sample, kernel event in the middle of the virtual sleep, sample",
     ]
-    if ctx.replay_file:
-        return replay_one(ctx, pools, ctx.replay_file)
     tags = set()
     import time
     phases = ctx.cov.setdefault("phase_wall_s", {})
@@ -964,12 +982,13 @@ def _check(ctx, pools):
     # background while the replays use the template processes)
     ex = [("exhaustive-" + name[5:], c()) for name, c in DUMPS]
     if thorough:
-        ex += [("exhaustive-pairs-tot-2threads", consts(Forms={"tot"}, DeltaMode="full", MaxAdv=2, MaxCalls=2)),
+        ex += [("exhaustive-pairs-tot", consts(Threads={"main"}, Forms={"tot"}, DeltaMode="full", MaxAdv=2, MaxCalls=2)),
+               ("exhaustive-pairs-2threads", consts(Forms={"per"}, Fns={"ctp"}, DeltaMode="full", MaxAdv=2, MaxCalls=1)),
                ("exhaustive-threads-deep", consts(Forms={"per"}, Fns={"ctp"}, Patterns={"mix", "back", "user", "guest"},
-                                                  MaxAdv=3, MaxCalls=4)),
+                                                  MaxAdv=3, MaxCalls=3)),
                ("exhaustive-3threads", consts(Threads={"main", "t2", "t3"}, Forms={"per"}, Fns={"cp"},
                                               Patterns={"mix", "back"}, MaxAdv=2, MaxCalls=2)),
-               ("exhaustive-process-deep", consts(WallSteps={1, 7, 64}, ProcSteps={0, 1, 5}, MaxPCalls=4, MaxTicks=2, **PROC))]
+               ("exhaustive-process-deep", consts(WallSteps={1, 64}, ProcSteps={0, 5}, MaxPCalls=4, MaxTicks=2, **PROC))]
 
     def exhaustive(item):
         name, c = item
@@ -986,13 +1005,13 @@ def _check(ctx, pools):
                                      BlockPats={"mix", "back"} if thorough else {"back"},
                                      MaxAdv=8, MaxCalls=4, Objs={"o1", "o2"}, WallSteps={1, 7, 64},
                                      ProcSteps={0, 1, 100} if thorough else {0, 100}, MaxPCalls=5, MaxTicks=4),
-         3000 if thorough else 240, 30),
+         1000 if thorough else 240, 30),
         ("simulate-layouts", consts(NCpuSet={1, 2}, NFSet={7, 8, 9, 10}, Modes={"nb", "block", "times"},
                                     Patterns={"user", "mix", "guest", "back", "steal", "big"}, BlockPats={"guest", "back"},
-                                    MaxAdv=6, MaxCalls=4), 1600 if thorough else 240, 24),
+                                    MaxAdv=6, MaxCalls=4), 1000 if thorough else 240, 24),
         ("simulate-clk1", consts(NFSet={8, 10}, ClkSet={1}, Modes={"nb", "block", "times"},
                                  Patterns={"user", "mix", "guest", "back", "steal", "big"}, BlockPats={"mix", "back"},
-                                 MaxAdv=6, MaxCalls=4), 600 if thorough else 80, 24),
+                                 MaxAdv=6, MaxCalls=4), 400 if thorough else 80, 24),
     ]
     from concurrent.futures import ThreadPoolExecutor
     exe = ThreadPoolExecutor(max_workers=4)
